@@ -14,6 +14,10 @@ R.axiom("forall('Path', lambda p: resolve(resolve(p)) == resolve(p))", name='A-p
 R.record('Path', pure={'parent': 'parent(self)'})
 R.contract('trusted:Path', trusted=True, params={'p': 'Path'}, returns='Path', pure=True, defn='p',
     note='pathlib.Path(p) of a path (or of its string form) denotes the same, unresolved, path')
+R.func('expanduser', ['Path'], 'Path')
+R.contract('trusted:Path.expanduser', trusted=True, self_type='Path', params={}, returns='Path', pure=True, defn='expanduser(self)',
+    note='Path.expanduser(): replaces a leading ~; the result is NOT made absolute or canonical')
+R.alias('Path', 'expanduser', 'trusted:Path.expanduser')
 R.contract('trusted:Path.resolve', trusted=True, self_type='Path', params={}, returns='Path', pure=True, defn='resolve(self)')
 R.alias('Path', 'resolve', 'trusted:Path.resolve')
 
